@@ -189,10 +189,10 @@ func checkWaits(c *core.Ctx, p *progFacts, rule string) (nSelect, nBare int) {
 
 // droppedInternalErrors checks every call of a repository function that returns an error.
 func droppedInternalErrors(c *core.Ctx, p *progFacts, rule string) int {
-	allow := map[string]string{
-		"genbank.posFromJoin<-genbank.unNestRecur": "location sub-expression parse error surfaces as a missing/short position list, rejected by GetPositions' arity check or a later length check; not one of the corruptions C18 lists",
-		"genbank.posFromComp<-genbank.unNestRecur": "as posFromJoin",
-	}
+	// no exceptions. (Two calls in genbank.unNestRecur used to be listed here with the reason "the parse error surfaces as a
+	// short position list that a later check rejects"; C14's partial-marker family showed that it does not - the gene was
+	// silently cut short - and the calls were repaired in /repo 37a429b.)
+	allow := map[string]string{}
 	n := 0
 	type site struct {
 		callee *ssa.Function
